@@ -45,6 +45,7 @@ extern struct verif_ev __verif_ev;
 #define EV_PLAIN(v)   (!(v).is_return && !(v).is_break && !(v).is_continue)
 #define EV_IS_INT(v)  ((v).type == VAL_INT && EV_PLAIN(v))
 #define EV_IS_BOOL(v) ((v).type == VAL_BOOL && EV_PLAIN(v))
+#define EV_IS_FLOAT(v) ((v).type == VAL_FLOAT && EV_PLAIN(v))
 
 /* ---- spec of the comparison / logic operators (C02 statement: ordinary signed 64-bit order; and/or/not on bool) ---- */
 static inline _Bool spec_eq(int64_t a, int64_t b) { return a == b; }
@@ -90,6 +91,31 @@ static inline _Bool spec_not(_Bool a) { return !a; }
 #define EL_INT 1
 #define EL_FLOAT 2
 #define EL_BOOL 3
+
+/* ---- float operators (C03.float.*, C03.mixed.*): the spec is the C double operation itself (what the generated C
+ *      performs: `(a + b)`, `(a < b)`, ... on double, resp. on int64_t and double with C's usual conversion);
+ *      arithmetic results are compared as BIT PATTERNS (so NaN payloads and the sign of zero count) ---- */
+#define MIX_FF 0          /* float op float */
+#define MIX_IF 1          /* int op float (admitted by the type checker with a diagnostic for comparisons / equality) */
+#define MIX_FI 2          /* float op int */
+
+/* ---- array_slice (C03.slice.*): transcription of what the COMPILED program does, i.e. of nl_array_slice emitted by
+ *      src/stdlib_runtime.c (generated C is built with -fwrapv, so `start + length` wraps):
+ *          start < 0 -> 0;  length < 0 -> 0;  start > len -> len;  end = start + length (wrapping);  end > len -> len;
+ *          result = elements [start, end)   (empty when end <= start)
+ *      On the non-wrapping domain this is "start clamped to [0,len], count = length clamped to what remains". ---- */
+static inline int64_t spec_slice_start(int64_t start, int64_t len)
+{ int64_t s = start < 0 ? 0 : start; return s > len ? len : s; }
+static inline int64_t spec_slice_count(int64_t start, int64_t length, int64_t len)
+{
+    int64_t s = spec_slice_start(start, len);
+    int64_t l = length < 0 ? 0 : length;
+    int64_t e = (int64_t)((uint64_t)s + (uint64_t)l);
+    if (e > len) e = len;
+    return e > s ? e - s : 0;
+}
+#define SL_NOWRAP 1       /* clamped start + clamped length does not exceed INT64_MAX */
+#define SL_WRAP 2         /* it does (the compiled program then yields an EMPTY slice) */
 
 /* C08: index outside the half-open range from 0 to length */
 #define EV_OUT_OF_RANGE(idx, len) ((idx) < 0 || (idx) >= (int64_t)(len))
